@@ -75,8 +75,10 @@ class SynchronousDeferredRunTest(_DeferredRunTest):
     Deferreds that have already fired.
     """
 
-    def _run_user(self, function, *args):
-        d = defer.maybeDeferred(function, *args)
+    def _run_user(self, function, /, *args, **kwargs):
+        # Same signature as RunTest._run_user: _run_cleanups hands the keyword
+        # arguments of addCleanup(f, key=value) through it.
+        d = defer.maybeDeferred(function, *args, **kwargs)
         d.addErrback(self._got_user_failure)
         result = extract_result(d)
         return result
